@@ -2768,7 +2768,8 @@ separator_opt:
   }
 | SEPARATOR string
   {
-    $$ = " separator '"+string($2)+"'"
+    // print the separator as a string literal (escaped), not as raw text between quotes
+    $$ = " separator " + String(NewStrVal($2))
   }
 
 when_expression_list:
